@@ -20,7 +20,7 @@ def neutral_line(rng, sy):
     if rng.random() < 0.25 or not sy.single:
         return rng.choice(["", " ", "\t", "   ", " \t ", " ", "　"])
     for _ in range(20):
-        body = rand_text(rng, sy, rng.randint(0, 6), hostile=True)
+        body = directed_comment_body(rng, sy) if rng.random() < 0.45 else rand_text(rng, sy, rng.randint(0, 6), hostile=True)
         if "sloc-guard:ignore" in body:
             continue
         line = rng.choice(["", "", "  ", "\t"]) + rng.choice(sy.single) + rng.choice(["", " "]) + body
@@ -40,7 +40,7 @@ def gen_cases(ctx, langs, n):
     rng = ctx.rng
     cases = []
     for _ in range(n):
-        sy = rng.choice(langs)
+        sy = weighted_lang(rng, langs)
         nl = rng.randint(0, 8)
         L = [rand_line(rng, sy).replace("\r", "").replace("\n", "") for _ in range(nl)]
         i = rng.randint(0, nl)
